@@ -68,6 +68,9 @@ Proof. reflexivity. Qed.
 Lemma rule_predict_row t x :
   predict_row t x = match route_leaf t x with Some a => Some (nd_target (get_node t a)) | None => None end.
 Proof. reflexivity. Qed.
+(* predict compares the query rows in fit's number system (float64): the regenerated flag says so *)
+Lemma rule_predict_number_system : r_predict_float64 kauri_fit_rules = true.
+Proof. reflexivity. Qed.
 Lemma rule_predict t X : predict t X = map (predict_row t) X.
 Proof. reflexivity. Qed.
 Lemma rule_node_count t X a : node_count t X a = countb (length X) (fun i => visits (length t) t (nth i X []) 0 a).
